@@ -427,8 +427,14 @@ def c_compare(I, o, a, b):
             x, y = zreal(a.term), zreal(b.term)
         else:
             rt = arith_type(ta, tb)
-            x = a.term if (a.literal and _fits(a.term, rt)) else wrap_int(rt, a.term)
-            y = b.term if (b.literal and _fits(b.term, rt)) else wrap_int(rt, b.term)
+
+            def conv(v, t):
+                # conversion to the common type changes a value only when the
+                # signedness / width differs from the operand's own (promoted) type
+                if (v.literal and _fits(v.term, rt)) or _same_repr(t, rt):
+                    return v.term
+                return wrap_int(rt, v.term)
+            x, y = conv(a, ta), conv(b, tb)
             if isinstance(x, int) and isinstance(y, int):
                 return {"==": x == y, "!=": x != y, "<": x < y, "<=": x <= y,
                         ">": x > y, ">=": x >= y}[o]
@@ -454,6 +460,19 @@ def c_compare(I, o, a, b):
             x, y = zint(x), zint(y)
     return simp({"==": x == y, "!=": x != y, "<": x < y, "<=": x <= y,
                  ">": x > y, ">=": x >= y}[o])
+
+
+def _same_repr(t, rt):
+    """every value of C type t is representable unchanged in rt"""
+    bt, st = INT_TYPES[t]
+    br, sr = INT_TYPES[rt]
+    if t == "bint":
+        return True
+    if st == sr:
+        return bt <= br
+    if not st and sr:
+        return bt < br
+    return False
 
 
 def _fits(v, ctype):
